@@ -104,8 +104,12 @@ def echo_of(frame: str, gwy_id: str = GWY_ID) -> str:
 
 async def make_port_gateway(*, on_write=None, gwy_id: str = GWY_ID, config: dict | None = None,
                             known_list: dict | None = None, schema: dict | None = None,
-                            **kwargs: Any):
-    """A started real Gateway on a FakeTransport.  Returns (gwy, transport)."""
+                            early_rx: list[str] | None = None, **kwargs: Any):
+    """A started real Gateway on a FakeTransport.  Returns (gwy, transport).
+
+    early_rx: frames heard while the gateway is still starting - after the port is open, before the transport has
+    identified its gateway and called connection_made() (PortTransport hands those to the protocol as any other,
+    spec/TransportLife.tla: DeliveredIsPrefix)."""
     import ramses_tx.gateway as txgw
     from ramses_rf import Gateway
 
@@ -116,7 +120,12 @@ async def make_port_gateway(*, on_write=None, gwy_id: str = GWY_ID, config: dict
     async def tf(protocol, **kw):
         t = FakeTransport(protocol, loop, gwy_id=gwy_id, on_write=on_write)
         holder["t"] = t
-        loop.call_soon(lambda: protocol.connection_made(t, ramses=True))
+        if early_rx:
+            for fr in early_rx:
+                loop.call_soon(lambda fr=fr: protocol.pkt_received(t.make_pkt(fr)))
+            loop.call_later(0.05, lambda: protocol.connection_made(t, ramses=True))
+        else:
+            loop.call_soon(lambda: protocol.connection_made(t, ramses=True))
         return t
 
     old = txgw.transport_factory
